@@ -29,3 +29,30 @@ func VH_C12_sam_sched() {
 	vSchedExplore(vParam("DEV"))
 	vAssert("C12.sam.output-independent-of-schedule", run() == base)
 }
+
+// VH_C12_pairwriter_arrival: toPairAlign's stdout writer restores input order for every arrival order.
+func VH_C12_pairwriter_arrival() {
+	N := vParam("N")
+	pairs := make([]alignPair, N)
+	exp := ""
+	for i := 0; i < N; i++ {
+		q := "ACG" + string(rune('A'+i))
+		pairs[i] = alignPair{ref: []byte("ACGT"), query: []byte(q), refname: "ref", queryname: "q" + itoa(i), idx: i}
+		exp += ">ref\nACGT\n>q" + itoa(i) + "\n" + q + "\n"
+	}
+	used := make([]bool, N)
+	ch := make(chan alignPair, N)
+	for i := 0; i < N; i++ {
+		c := vChoice(vName("arrive", i), N)
+		vAssume(!used[c])
+		used[c] = true
+		ch <- pairs[c]
+	}
+	close(ch)
+	cDone := make(chan bool, 1)
+	cErr := make(chan error, 8)
+	vStdoutCapture()
+	writePairwiseAlignment("stdout", 0, ch, cDone, cErr, false)
+	got := vStdout()
+	vAssert("C12.sam.pair-writer-restores-input-order", got == exp && len(cDone) == 1 && len(cErr) == 0)
+}
